@@ -154,13 +154,13 @@ def do_op(app, t):
     if t[0] == "C":
         trx = trxs[int(t[1])]
         data = bytes.fromhex(t[3]) if t[3] != "-" else b""
-        trx.ctrl_if.sock.inq.append((data, (trx.remote_addr, int(t[2]))))
-        trx.ctrl_if.handle_rx()
+        if trx.ctrl_if.sock.deliver(data, (trx.remote_addr, int(t[2]))):
+            trx.ctrl_if.handle_rx()
     elif t[0] == "D":
         trx = trxs[int(t[1])]
         data = bytes.fromhex(t[2]) if t[2] != "-" else b""
-        trx.data_if.sock.inq.append((data, (trx.remote_addr, trx.data_if.remote_port)))
-        trx.recv_data_msg()
+        if trx.data_if.sock.deliver(data, (trx.remote_addr, trx.data_if.remote_port)):
+            trx.recv_data_msg()
     elif t[0] == "T":
         if app.clck_gen.running:
             TICKFN[0] = app.clck_gen.clck_src
